@@ -199,6 +199,16 @@ class ModelMixin:
                 return is_int_like(v)
             if tn == 'bytes':
                 return isinstance(v, (bytes, BytesV))
+            if '.' in tn:
+                # a class of a dependency (not an exception class): an object of a repository class is an instance of
+                # it only if the repository class derives from it
+                if isinstance(v, Ref) and st.obj(v).kind == 'obj' and isinstance(st.obj(v).cls, ClassInfo):
+                    return any(tn.split('.')[-1] == str(b).split('.')[-1] for ci in self.repo.mro(st.obj(v).cls)
+                               for b in self.repo.external_bases(ci) if isinstance(b, str))
+                if isinstance(v, Opaque):
+                    return self.opaque_pred(v, 'isinstance_' + tn.replace('.', '_'))
+                if v is None or isinstance(v, (str, int, bytes)) or is_sym(v):
+                    return False
             raise EngineError(f'isinstance(_, {tn})')
         if isinstance(t, ExtClassRef):
             if isinstance(v, ExcV):
